@@ -120,4 +120,9 @@ TEXTS = {
                 level_text=("(b) EXHAUSTIVE: a copy of the working tree is regenerated with `make clean all` (static-code string tables, bootstrap parser, pigeon.go, all test and example parsers, with the Makefile's flags) and every tracked file is compared byte for byte — the three-stage bootstrap is a fixpoint iff nothing differs. "
                             "(a) grammars in the bootstrap subset are parsed by bootstrap.Parser in-process and by the generated front-end through the verif hook and the ASTs compared (positions and display-name quoting aside), incl. the two checked-in grammars. Kernel-checked: the two scanners' escape validity tests differ exactly at U+E000 (known finding F3), and the bootstrap test only rejects more."),
                 level_note=TOOLNOTE),
+    "C09": dict(technique="translation validation of the real optimizer against a reference PEG interpreter + Lean laws of denotational PEG recognition",
+                design_ref="DESIGN.md §5 C09", engine="tools",
+                level_text=("The real ast.Optimize is run on independent copies of generated grammars (incl. the shapes of the repaired defects D10, D11, D13, whose avoidance is lifted) and the original and optimized ASTs are compared under an independent reference interpreter on acceptance, consumed prefix and every code-block invocation (text, pos, canonical label values), for the first rule and every alternate entrypoint; entrypoint survival, dangling references, parameter lists and the fixpoint are checked statically. "
+                            "Kernel-checked (Properties/C09.lean): in a denotational model where sub-expressions are arbitrary recognisers, each rewrite is an equation — singleton sequence/choice, sequence and choice flattening at any position, literal concatenation, one-rune literals as classes, union of NON-inverted classes — hence sound in every context; the union of inverted classes is proved unsound (D11) and the sound law stated. Known findings D5, O1."),
+                level_note=TOOLNOTE + " Values and label scopes are outside the Lean model; the reference interpreter (harness/pvref) is validated by unit tests and seeded-bug experiments only."),
 }
